@@ -400,7 +400,7 @@ func runC05(r *Run) int {
 		rule += "{temporal group absent, 3 seeded temporal combinations}"
 	}
 	rule += ", decoded by NewEnvironmental().Decode, plus the group-absent relation env == temporal on all 73,629 vectors; oracle = exact rational v2 environmental equations with layered admissible sets (halves either way; negative equation => that tenth or 0); distinct non-trivial = distinct (key, CDP, TD, temporal state) vectors with an environmental group (bitmap)"
-	r.ProcsChildren(3000, 1, 3, 7, 14)
+	r.ProcsChildren(2000, 1, 3, 7, 14)
 	return r.Finish(rule, true, distinct.count(), 1000000, 1000000, TrustedBase)
 }
 
